@@ -8,7 +8,8 @@ From BioVerif Require Import Model.BMPCodec Model.BMPRouter.
 Open Scope N_scope.
 
 Inductive tevent :=
-| EUp (k : nkey) (s : src) (ap4 ap6 : bool)      (* peer up: session key, source address, add-path per family *)
+| EUp (k : nkey) (s : src) (ap4 ap6 : bool) (ibgp : bool) (rid : N)
+    (* peer up: session key, source address, add-path per family, iBGP?, the monitored router's id *)
 | EDown (k : nkey)                               (* peer down *)
 | EAnn (k : nkey) (v6 : bool) (x : rkey)         (* route announced *)
 | EWdr (k : nkey) (v6 : bool) (x : rkey)         (* route withdrawn *)
@@ -17,10 +18,10 @@ Inductive tevent :=
 (* traces are kept newest event first *)
 
 (* the session of peer k, if it is up: its source address and add-path modes *)
-Fixpoint sess (tr : list tevent) (k : nkey) : option (src * bool * bool) :=
+Fixpoint sess (tr : list tevent) (k : nkey) : option (src * bool * bool * bool * N) :=
   match tr with
   | [] => None
-  | EUp k' s a4 a6 :: r => if nkey_eqb k' k then Some (s, a4, a6) else sess r k
+  | EUp k' s a4 a6 ib rid :: r => if nkey_eqb k' k then Some (s, a4, a6, ib, rid) else sess r k
   | EDown k' :: r => if nkey_eqb k' k then None else sess r k
   | EReset :: _ => None
   | _ :: r => sess r k
@@ -37,7 +38,7 @@ Fixpoint live (tr : list tevent) (k : nkey) (v6 : bool) (x : rkey) : bool :=
     else live r k v6 x
   | EWdr k' v6' x' :: r =>
     if nkey_eqb k' k && Bool.eqb v6' v6 && rkey_eqb x' x then false else live r k v6 x
-  | EUp k' _ _ _ :: r => if nkey_eqb k' k then false else live r k v6 x
+  | EUp k' _ _ _ _ _ :: r => if nkey_eqb k' k then false else live r k v6 x
   | EDown k' :: r => if nkey_eqb k' k then false else live r k v6 x
   | EReset :: _ => false
   end.
@@ -51,7 +52,7 @@ Definition key_of_pph (h : pph) : nkey := (p_rd h, p_addr h).
 
 Definition tevent_of (k : nkey) (ev : uevent) : tevent :=
   match ev with
-  | UAnn v6 p id => EAnn k v6 (p, id)
+  | UAnn v6 p id _ => EAnn k v6 (p, id)
   | UWdr v6 p id => EWdr k v6 (p, id)
   end.
 
@@ -64,7 +65,8 @@ Definition interp (tr : list tevent) (m : bmp_msg) : list tevent :=
     match open_decode sent, open_decode rcvd with
     | Some so, Some ro =>
       if asn_of_open ro =? p_as h
-      then [EUp (key_of_pph h) (src_of h) (addpath_rx so ro 1) (addpath_rx so ro 2)]
+      then [EUp (key_of_pph h) (src_of h) (addpath_rx so ro 1) (addpath_rx so ro 2)
+                (asn_of_open so =? p_as h) (o_bgpid so)]
       else []
     | _, _ => []
     end
@@ -72,7 +74,7 @@ Definition interp (tr : list tevent) (m : bmp_msg) : list tevent :=
   | MRouteMon h upd =>
     if (ignore_pre c && negb (flag_l h)) || (ignore_post c && flag_l h) then []
     else match sess tr (key_of_pph h) with
-         | Some (_, a4, a6) => map (tevent_of (key_of_pph h)) (upd_apply a4 a6 (negb (flag_a h)) upd)
+         | Some (_, a4, a6, _, _) => map (tevent_of (key_of_pph h)) (upd_apply a4 a6 (negb (flag_a h)) upd)
          | None => []
          end
   | MTerm _ => [EReset]
@@ -102,10 +104,13 @@ Definition trace (acts : list action) : list tevent :=
 (* the peer address field of an IPv4 peer has 12 leading zero bytes *)
 Definition wf_pph (h : pph) : bool := flag_v h || (p_addr h <? two32r).
 
-(* an Adj-RIB-In call of a family without add-path carries path identifier 0 *)
-Definition wf_uevent (a4 a6 : bool) (ev : uevent) : bool :=
+(* an Adj-RIB-In call of a family without add-path carries path identifier 0; an announced path is one
+   the Adj-RIB-In of the pseudo session does not hide (no contributing ASNs / cluster ids in a BMP VRF,
+   so: not an eBGP path without AS_PATH, ORIGINATOR_ID not the monitored router's own id) *)
+Definition wf_uevent (a4 a6 ib : bool) (rid : N) (ev : uevent) : bool :=
   match ev with
-  | UAnn v6 _ id | UWdr v6 _ id => (if v6 then a6 else a4) || (id =? 0)
+  | UAnn v6 _ id a => ((if v6 then a6 else a4) || (id =? 0)) && negb (hidden_path ib rid [] [] a)
+  | UWdr v6 _ id => (if v6 then a6 else a4) || (id =? 0)
   end.
 
 Definition wf_msg (tr : list tevent) (m : bmp_msg) : bool :=
@@ -123,7 +128,7 @@ Definition wf_msg (tr : list tevent) (m : bmp_msg) : bool :=
   | MRouteMon h upd =>
     wf_pph h &&
     match sess tr (key_of_pph h) with
-    | Some (_, a4, a6) => forallb (wf_uevent a4 a6) (upd_apply a4 a6 (negb (flag_a h)) upd)
+    | Some (_, a4, a6, ib, rid) => forallb (wf_uevent a4 a6 ib rid) (upd_apply a4 a6 (negb (flag_a h)) upd)
     | None => true
     end
   | _ => true
